@@ -88,7 +88,8 @@ def candLists (q : LS) (t : F64.F) (dbs : List (List (Sig LS))) : List (List (Si
   dbs.map (fun db => db.filter (fun d => passes (findScore q.flat d.mh) t))
 
 /-- the side condition under which the prefetch pass cannot hide a reportable sketch: no threshold, or a
-query at least as coarse as the database together with the (unproved) monotonicity of float division -/
+query at least as coarse as the database together with the monotonicity of float division (a theorem:
+`noD6_of_inputs` in `Lemmas/GatherThreshold.lean`) -/
 def NoD6 (q : LS) (sd thr : Nat) (t nT : F64.F) : Prop :=
   thr = 0 ∨ (sd ≤ q.scaled ∧ PrefetchPermissive t nT q.hs.length)
 
